@@ -243,7 +243,8 @@ func init() {
 		ev["unsafe"] = B(p.Bytes_Unsafe())
 		ev["ax_safe"] = B(p.GetAffineX().Bytes())
 		ev["ax_unsafe"] = B(p.GetAffineX_Unsafe().Bytes())
-		ev["isinf"] = p.IsInfinity()
+		_, _, pz := p.VerifXYZ()
+		ev["isinf"] = pz.IsZero() == 1
 		ev["p_after"] = tripleOut(p)
 	})
 	// ---- scalar multiplication
